@@ -57,13 +57,22 @@ def compare_atom(e: ast.AST):
 
 
 class St:
-    __slots__ = ("task", "succ", "know", "facts")
+    __slots__ = ("task", "succ", "know", "facts", "sv")
 
-    def __init__(self, task, succ, know, facts):
-        self.task, self.succ, self.know, self.facts = task, succ, know, facts
+    def __init__(self, task, succ, know, facts, sv=frozenset()):
+        self.task, self.succ, self.know, self.facts, self.sv = task, succ, know, facts, sv
 
     def key(self):
-        return (self.task, self.succ, self.know, self.facts)
+        return (self.task, self.succ, self.know, self.facts, self.sv)
+
+    def svar(self, name):
+        for k, v in self.sv:
+            if k == name:
+                return v
+        return "<unknown>"
+
+    def set_svar(self, name, value):
+        return self.with_(sv=frozenset([(k, v) for k, v in self.sv if k != name] + [(name, value)]))
 
     def __hash__(self):
         return hash(self.key())
@@ -72,7 +81,7 @@ class St:
         return self.key() == o.key()
 
     def with_(self, **kw):
-        d = {"task": self.task, "succ": self.succ, "know": self.know, "facts": self.facts}
+        d = {"task": self.task, "succ": self.succ, "know": self.know, "facts": self.facts, "sv": self.sv}
         d.update(kw)
         return St(**d)
 
@@ -164,6 +173,11 @@ class Explorer:
                     st2 = st.learn(pair, frozenset(oo))
                     if st2 is not None:
                         outs.append((lab, st2))
+            elif isinstance(e, ast.Compare) and len(e.ops) == 1 and isinstance(e.ops[0], (ast.Is, ast.IsNot)) and isinstance(e.left, ast.Name) \
+                    and isinstance(e.comparators[0], ast.Constant) and e.comparators[0].value is None and st.svar(e.left.id) != "<unknown>":
+                isnone = st.svar(e.left.id) is None
+                lab = isnone if isinstance(e.ops[0], ast.Is) else (not isnone)
+                outs.append((lab, st))
             elif d == f"{self.istate}.is_success":
                 for lab in (True, False):
                     if st.succ is None or st.succ == lab:
@@ -173,6 +187,7 @@ class Explorer:
                 if hs is not None:
                     tq, outcomes, b = hs
                     for ret, task, succ, hfacts in outcomes:
+                        task = _subst_param(task, b)
                         st2 = st.with_(task=st.task if task == "<in>" else task,
                                        succ=st.succ if succ == "<in>" else succ)
                         fx = set(st2.facts)
@@ -204,8 +219,19 @@ class Explorer:
                 for t in tg:
                     d = dotted(t)
                     if d == f"{self.istate}.task_str":
-                        st2 = st2.with_(task=s.value.value if isinstance(s.value, ast.Constant) and
-                                        isinstance(s.value.value, str) else "<non-constant>")
+                        v = s.value
+                        if isinstance(v, ast.Constant) and isinstance(v.value, str):
+                            st2 = st2.with_(task=v.value)
+                        elif isinstance(v, ast.Name) and isinstance(st2.svar(v.id), str) and st2.svar(v.id) != "<unknown>":
+                            st2 = st2.with_(task=st2.svar(v.id))
+                        elif isinstance(v, ast.Name) and v.id in self.f.params:
+                            st2 = st2.with_(task=f"<param:{v.id}>")
+                        else:
+                            st2 = st2.with_(task="<non-constant>")
+                    elif isinstance(t, ast.Name) and isinstance(s.value, ast.Constant) and (isinstance(s.value.value, str) or s.value.value is None):
+                        st2 = st2.set_svar(t.id, s.value.value)
+                    elif isinstance(t, ast.Name) and st2.svar(t.id) != "<unknown>":
+                        st2 = st2.with_(sv=frozenset((k, v) for k, v in st2.sv if k != t.id))
                     elif d == f"{self.istate}.is_success":
                         st2 = st2.with_(succ=s.value.value if isinstance(s.value, ast.Constant) and
                                         isinstance(s.value.value, bool) else None)
@@ -219,7 +245,7 @@ class Explorer:
                     hs = self._helper(c)
                     if hs is not None:
                         tq, outcomes, b = hs
-                        fan = [x.with_(task=x.task if task == "<in>" else task,
+                        fan = [x.with_(task=x.task if _subst_param(task, b) == "<in>" else _subst_param(task, b),
                                        succ=x.succ if succ == "<in>" else succ)
                                for x in fan for ret, task, succ, hfacts in outcomes]
             outs = [("*", x) for x in fan]
@@ -264,6 +290,13 @@ class Explorer:
         return self.at
 
 
+def _subst_param(task, b):
+    if isinstance(task, str) and task.startswith("<param:"):
+        a = b.get(task[7:-1])
+        return a.value if isinstance(a, ast.Constant) and isinstance(a.value, str) else "<non-constant>"
+    return task
+
+
 def _first_mention(e: ast.AST) -> str:
     ms = sorted(mentions(e))
     return ms[0] if ms else ""
@@ -292,29 +325,56 @@ def helper_summaries(ctx: Ctx) -> Dict[str, list]:
     if "exit_helpers" in ctx.notes:
         return ctx.notes["exit_helpers"]  # type: ignore
     out: Dict[str, list] = {}
-    for q, f in ctx.repo.funcs.items():
-        ps = [p for p in f.params if any(
-            isinstance(n, ast.Attribute) and n.attr == "task_str" and isinstance(n.ctx, ast.Store)
-            and dotted(n.value) == p for n in walk_no_nested(f.node))]
-        if not ps or q == "main.minimize_lbfgsb":
-            continue
-        ex = Explorer(ctx, f, ps[0], {})
-        at = ex.run(St("<in>", "<in>", frozenset(), frozenset()))
-        outcomes = set()
-        for n in ex.cfg.nodes:
-            if n.kind == "stmt" and isinstance(n.ast, ast.Return):
-                for st in at.get(n, ()):
-                    v = n.ast.value
-                    ret = v.value if isinstance(v, ast.Constant) else None
-                    facts = set()
-                    for (a, b), o in st.know:
-                        if a in f.params and b in f.params:
-                            if o <= {"LT", "EQ"}:
-                                facts.add(f"le|{a}|{b}")
-                            if o <= {"GT", "EQ"}:
-                                facts.add(f"le|{b}|{a}")
-                    outcomes.add((ret, st.task, st.succ, frozenset(facts)))
-        out[q] = sorted(outcomes, key=repr)
+    from ..alias import engine
+    cg = engine(ctx).cg
+    for _round in range(4):
+        grew = False
+        for q, f in ctx.repo.funcs.items():
+            if q in out or q == "main.minimize_lbfgsb" or f.cls is not None:
+                continue
+            ps = [p for p in f.params if any(
+                isinstance(n, ast.Attribute) and n.attr == "task_str" and isinstance(n.ctx, ast.Store)
+                and dotted(n.value) == p for n in walk_no_nested(f.node))]
+            if not ps:
+                # passes one of its parameters on to an already summarised helper's state parameter
+                for c, tgts in cg.calls[q]:
+                    for tq in tgts:
+                        if tq in out:
+                            for a in c.args:
+                                if isinstance(a, ast.Name) and a.id in f.params and a.id not in ps:
+                                    ps.append(a.id)
+            if not ps:
+                continue
+            ex = Explorer(ctx, f, ps[0], dict(out))
+            at = ex.run(St("<in>", "<in>", frozenset(), frozenset()))
+            outcomes = set()
+            for n in ex.cfg.nodes:
+                returns = [n] if (n.kind == "stmt" and isinstance(n.ast, ast.Return)) else []
+                for rn in returns:
+                    for st in at.get(rn, ()):
+                        v = rn.ast.value
+                        ret = v.value if isinstance(v, ast.Constant) else None
+                        facts = set()
+                        for (a, b), o in st.know:
+                            if a in f.params and b in f.params:
+                                if o <= {"LT", "EQ"}:
+                                    facts.add(f"le|{a}|{b}")
+                                if o <= {"GT", "EQ"}:
+                                    facts.add(f"le|{b}|{a}")
+                        outcomes.add((ret, st.task, st.succ, frozenset(facts)))
+            # falling off the end (implicit return None)
+            for st in at.get(ex.cfg.exit, ()):
+                if not any(b is ex.cfg.exit for n2 in ex.cfg.nodes if n2.kind == "stmt" and isinstance(n2.ast, ast.Return) for b, _ in ex.cfg.succ[n2]) or True:
+                    pass
+            fall = [n2 for n2, lab in ex.cfg.pred[ex.cfg.exit] if not (n2.kind == "stmt" and isinstance(n2.ast, ast.Return))]
+            for n2 in fall:
+                for st in at.get(n2, ()):
+                    for lab2, st2 in ex.step(n2, st):
+                        outcomes.add((None, st2.task, st2.succ, frozenset()))
+            out[q] = sorted(outcomes, key=repr)
+            grew = True
+        if not grew:
+            break
     ctx.notes["exit_helpers"] = out
     return out
 
@@ -339,15 +399,35 @@ def rule_exit(ctx: Ctx) -> List[Ob]:
                 nmsg += 1
                 v = s.value
                 ok = isinstance(v, ast.Constant) and (v.value in T.TERMINAL_MESSAGES or v.value in T.TRANSIENT_MESSAGES)
-                obs.append(ob("EXIT", "message is one of the documented set", g, s, ok,
-                              ("terminal: " + T.TERMINAL_MESSAGES[v.value]) if ok and v.value in T.TERMINAL_MESSAGES
-                              else "transient" if ok else "unknown or non-constant termination message", False))
+                why = ("terminal: " + T.TERMINAL_MESSAGES[v.value]) if ok and v.value in T.TERMINAL_MESSAGES else "transient" if ok \
+                    else "unknown or non-constant termination message"
+                if not ok and isinstance(v, ast.Name):
+                    # the message comes through a parameter (every call site must pass a documented constant) or through a
+                    # local that only ever holds documented constants / None
+                    consts = []
+                    if v.id in g.params:
+                        from ..alias import engine as _eng
+                        cg = _eng(ctx).cg
+                        for q2 in ctx.repo.funcs:
+                            for c, tg in cg.calls[q2]:
+                                if q in tg:
+                                    a = bind_args(c, g.node).get(v.id)
+                                    consts.append(a.value if isinstance(a, ast.Constant) else "<non-constant>")
+                    else:
+                        for x in walk_no_nested(g.node):
+                            if isinstance(x, (ast.Assign, ast.AnnAssign)) and getattr(x, "value", None) is not None and \
+                                    src(x.targets[0] if isinstance(x, ast.Assign) else x.target) == v.id:
+                                consts.append(x.value.value if isinstance(x.value, ast.Constant) else "<non-constant>")
+                    ok = bool(consts) and all(c is None or c in T.TERMINAL_MESSAGES or c in T.TRANSIENT_MESSAGES for c in consts)
+                    why = f"message taken from `{v.id}`, which only holds {sorted(set(str(c) for c in consts))}"
+                obs.append(ob("EXIT", "message is one of the documented set", g, s, ok, why, False))
     need(nmsg >= 5, f"EXIT: only {nmsg} message assignment sites found (9 confirmed by hand)")
     for q, oc in helpers.items():
         g = ctx.repo.funcs[q]
         for ret, task, succ, facts in oc:
             ok = (task == "<in>" and succ == "<in>" and ret is not True) or \
-                 (task in T.TERMINAL_MESSAGES and succ is True and ret is True)
+                 (task in T.TERMINAL_MESSAGES and succ is True and ret is True) or \
+                 (isinstance(task, str) and task.startswith("<param:") and succ is True)   # constants checked at the call sites
             if task == "CONVERGENCE: F_<=_TARGET":
                 ok = ok and any(x.startswith("le|") for x in facts)
             obs.append(ob("EXIT", "helper outcome couples message, success flag and return value", g, g.node, ok,
